@@ -67,7 +67,7 @@ func IllFormedGrammar(t *rapid.T, o IllFormedOpts) (*Grammar, []Injection) {
 	var inj []Injection
 	n := rapid.IntRange(0, 3).Draw(t, "ninj")
 	for k := 0; k < n; k++ {
-		kinds := []string{"leftrec-direct", "leftrec-indirect", "undefined", "unreachable", "unreachable-cycle", "undefined-from-unreachable"}
+		kinds := []string{"leftrec-direct", "leftrec-indirect", "undefined", "unreachable", "unreachable-cycle", "undefined-from-unreachable", "unreachable-leftrec"}
 		if !o.NoDuplicate {
 			kinds = append(kinds, "duplicate")
 		}
@@ -113,6 +113,13 @@ func IllFormedGrammar(t *rapid.T, o IllFormedOpts) (*Grammar, []Injection) {
 			a, b := fmt.Sprintf("CycA%d", k), fmt.Sprintf("CycB%d", k)
 			g.Rules = append(g.Rules, &Rule{Name: a, Body: Seq(term(), Ref(i+1))}, &Rule{Name: b, Body: Seq(term(), Un(KOpt, Ref(i)))})
 			inj = append(inj, Injection{Kind: kind, Rule: a + "," + b})
+		case "unreachable-leftrec":
+			// one rule earns two diagnostics: it is unreachable and left-recursive
+			i := len(g.Rules)
+			name := fmt.Sprintf("Loop%d", k)
+			x, via := wrap(Ref(i), "ulw")
+			g.Rules = append(g.Rules, &Rule{Name: name, Body: &Expr{K: KAlt, Kids: []*Expr{Seq(x, term()), term()}}})
+			inj = append(inj, Injection{Kind: kind, Via: via + "/first", Rule: name})
 		case "undefined-from-unreachable":
 			name, undef := fmt.Sprintf("Lost%d", k), fmt.Sprintf("Nowhere%d", k)
 			g.Rules = append(g.Rules, &Rule{Name: name, Body: Seq(term(), &Expr{K: KRef, Name: undef})})
